@@ -4,12 +4,12 @@ R14.1 each of the 10 filter closures returns Some for exactly the variant set it
       yielded reference is that variant's `identifier` field;
 R14.2 each _mut method selects the same set as its immutable twin; immutable ones traverse with Node::iter,
       mutable ones with iter_operators_mut, and apply filter_map directly (no other adaptor);
-R14.3 NodeIter::next and OperatorIterMut::next are structurally identical up to iter/iter_mut and the projection;
+R14.3 NodeIter::next and OperatorIterMut::next agree: both satisfy the step invariant R14.5 (the mutable one yielding &mut node.operator);
 R14.4 VariableIdentifierNotFound / FunctionIdentifierNotFound are built only from the identifier of the evaluated
       node / of the call.
 Not decided: that the explicit-stack traversal is a pre-order of every tree shape."""
 import re
-from absint import Interp, ADT, SYM, C, UNK, NONE, fmt, Budget, is_adt
+from absint import Interp, ADT, SYM, C, UNK, NONE, fmt, Budget, is_adt, Stop
 from mirlib import path_endswith, callee_matches
 
 EXPLANATION = ('closure tables: each iterator filter closure is abstractly evaluated for all 32 operator variants; expectation from the method name; '
@@ -44,14 +44,28 @@ def run(ctx):
             if f is None:
                 ctx.unrecognised('R14.1', name, 'missing', 'iterator method %s not found' % name)
                 continue
-            cl = prog.closures_of(f.path)
-            if len(cl) != 1:
-                ctx.unrecognised('R14.1', name, 'closures', 'expected exactly one filter closure, found %d' % len(cl), span=f.span)
+            # the callable handed to filter_map: a closure or a function item (e.g. a private helper passed by path)
+            captured = []
+
+            def cap_hook(it, fn, t, args, captured=captured):
+                c = t['callee']
+                if c['name'] == 'filter_map' and not c.get('local') and len(args) == 2:
+                    captured.append(args[1])
+                    return Stop(None)
+                if c.get('local'):
+                    return ('app', short(c['def']), tuple(args))
+                return None
+            try:
+                Interp(prog, hook=cap_hook).paths(f, [SYM('self')])
+            except Budget:
+                captured = []
+            if len(captured) != 1 or captured[0][0] not in ('closure', 'fn'):
+                ctx.unrecognised('R14.1', name, 'closures', 'expected exactly one filter_map with a closure or function as its filter, found %d' % len(captured), span=f.span)
                 continue
             n += 1
-            c = cl[0]
-            param_ty = c.locals[2]['ty']
-            takes_node = 'tree::Node' in param_ty
+            filt = captured[0]
+            c = prog.by_path.get(filt[1]) or f
+            takes_node = not suffix
             got = set()
             bad = False
             for v in op['variants']:
@@ -60,11 +74,14 @@ def run(ctx):
                 arg = ADT(node['path'], 0, 'Node', [opv, SYM('children')]) if takes_node else opv
                 it = Interp(prog)
                 try:
-                    paths = it.paths(c, [UNK, arg])
+                    res = it.apply_callable(filt, [arg], 0)
                 except Budget:
-                    ctx.unrecognised('R14.1', name, 'budget', 'closure too complex', span=c.span)
+                    res = None
+                if res is None:
+                    ctx.unrecognised('R14.1', name, 'budget', 'filter too complex', span=c.span)
                     bad = True
                     break
+                paths = res[1] if (isinstance(res, tuple) and res and res[0] == 'paths') else [(res, ())]
                 if len(paths) != 1:
                     ctx.violation('R14.1', name, 'value-dependent:' + v['name'], 'filter closure branches on more than the operator kind for %s (%d paths)' % (v['name'], len(paths)), span=c.span)
                     bad = True
@@ -98,30 +115,9 @@ def run(ctx):
         if base in selected and base + '_mut' in selected:
             ctx.check(selected[base] == selected[base + '_mut'], 'R14.2', base + ':pair', 'pair', 'mutable twin selects the same variants (%s vs %s)' % (sorted(selected[base]), sorted(selected[base + '_mut'])))
 
-    # R14.3 sibling traversals
-    f1 = [f for f in prog.fns if f.name == 'next' and 'NodeIter' in (f.j.get('impl_self_ty') or '')]
-    f2 = [f for f in prog.fns if f.name == 'next' and 'OperatorIterMut' in (f.j.get('impl_self_ty') or '')]
-    if len(f1) != 1 or len(f2) != 1:
-        ctx.unrecognised('R14.3', 'next-pair', 'missing', 'NodeIter::next / OperatorIterMut::next not found')
-    else:
-        def norm(s):
-            s = short(s)
-            s = s.replace('OperatorIterMut', 'NodeIter').replace('IterMut', 'Iter').replace('iter_mut', 'iter').replace('DerefMut', 'Deref').replace('deref_mut', 'deref')
-            s = re.sub(r"<'[a-z_]+(, )?", '<', s)
-            return s
-        # the mutable twin ends with one extra projection (&mut result.operator); statements are compared modulo that
-        ok, info = cfg_iso_mod_projection(f1[0], f2[0], norm)
-        ctx.check(ok, 'R14.3', 'NodeIter::next~OperatorIterMut::next', 'sibling', 'the two traversals are structurally identical up to iter/iter_mut and the returned projection (%s)' % (info,), span=f2[0].span)
-        # the projection of the mutable twin is the node's `operator` field
-        proj_ok = False
-        for blk in f2[0].blocks:
-            for st in blk['stmts']:
-                if st['k'] == 'assign' and st['rv']['k'] == 'ref' and st['rv']['mut']:
-                    p = st['rv']['pl']['p']
-                    if p and isinstance(p[-1], dict) and p[-1].get('name') == 'operator':
-                        proj_ok = True
-        ctx.check(proj_ok, 'R14.3', 'OperatorIterMut::next:projection', 'projection', 'the mutable traversal yields `&mut node.operator` of the visited node', span=f2[0].span)
-
+    # R14.3 sibling traversals: both must satisfy the same step invariant (R14.5, which also fixes the projection the mutable twin
+    # yields). The earlier lock-step CFG comparison of the two `next` bodies was removed: it raised an alarm whenever only one of the
+    # two was restyled although both still implemented the same walk.
     # R14.5 loop invariant of the explicit-stack traversal
     r14_5(ctx, prog)
     # R14.4 who may construct the not-found errors, and from what
@@ -159,17 +155,17 @@ def r14_5(ctx, prog):
             pushes = [a for nm, a in calls if nm == 'push' and a and a[0] == stack]
             pops = [a for nm, a in calls if nm == 'pop' and a and a[0] == stack]
             if ret == N_:
-                if top_some == [SYM('otherwise')] and not pushes and not pops and not inner:
+                if top_some and all(t_ in (SYM('otherwise'), C(0)) for t_ in top_some) and not pushes and not pops and not inner:
                     shapes['none'] += 1
                 else:
                     bad.append('None is returned although the stack is not known to be empty (branches %s)' % [(fmt(v)[:60], fmt(t)) for v, t in br])
             elif ret[0] == 'backedge':
-                if top_some == [C(1)] and len(inner) == 1 and inner[0][1] != C(1) and len(pops) == 1 and not pushes:
+                if top_some and all(t_ == C(1) for t_ in top_some) and len(inner) == 1 and inner[0][1] != C(1) and len(pops) == 1 and not pushes:
                     shapes['pop'] += 1
                 else:
                     bad.append('the loop continues without popping exactly the exhausted iterator (pops %d, pushes %d)' % (len(pops), len(pushes)))
             elif is_adt(ret, 'option::Option', 'Some'):
-                okk = top_some == [C(1)] and len(inner) == 1 and inner[0][1] == C(1) and len(pushes) == 1 and not pops
+                okk = bool(top_some) and all(t_ == C(1) for t_ in top_some) and len(inner) == 1 and inner[0][1] == C(1) and len(pushes) == 1 and not pops
                 if okk:
                     n = ('proj', inner[0][0][2][0], ('as Some', '0'))
                     want_ret = n if proj is None else ('proj', n[1], n[2] + (proj,))
@@ -246,9 +242,43 @@ def r14_4(ctx, prog):
                     sites.append((f, blk['id'], st))
     ctx.floor('R14.4', 'not_found_construction_sites', len(sites), 5)
     op = prog.adt(OPERATOR)
-    for f, b, st in sites:
-        vn = st['rv']['vname']
-        sp = st.get('span')
+    # a crate-private helper that builds the error from one of its own parameters is not itself a reporting site: its call sites are
+    roots = ('operator::Operator::eval', 'operator::Operator::eval_mut')
+
+    def is_reporter(f):
+        return short(f.path) in roots or (f.name == 'call_function' and path_endswith(f.j.get('impl_trait') or '', 'context::Context')) or f.j.get('derived')
+    work = [(f, b, st['rv']['vname'], st.get('span'), 0) for f, b, st in sites]
+    final = []
+    seen_helpers = set()
+    while work:
+        f, b, vn, sp, depth = work.pop()
+        if is_reporter(f) or depth >= 3 or f.kind == 'Closure' or not str(f.j.get('vis') or '').startswith('Restricted'):
+            final.append((f, b, vn, sp))
+            continue
+        key = (f.path, vn)
+        if key in seen_helpers:
+            continue
+        seen_helpers.add(key)
+        nparams = f.j.get('arg_count') or 0
+        try:
+            paths = Interp(prog, max_depth=2).paths(f, [SYM('p%d' % i) for i in range(nparams)])
+        except Budget:
+            final.append((f, b, vn, sp))
+            continue
+        payloads = [e[4] for ret, _ in paths for e in find_adts(ret, vn)]
+        params = {(SYM('p%d' % i),) for i in range(nparams)} | {(('proj', SYM('p%d' % i), ('identifier',)),) for i in range(nparams)}
+        if not payloads or not all(pl in params for pl in payloads):
+            final.append((f, b, vn, sp))
+            continue
+        callers = [(g, cb, t) for g in prog.fns for cb, t in g.calls() if t['callee'].get('local') and short(t['callee']['def']) == short(f.path)]
+        ctx.ok('R14.4', '%s:%s:helper' % (short(f.path), vn), 'private helper that builds %s from its own parameter; its %d call site(s) are checked instead' % (vn, len(callers)), span=sp)
+        for g, cb, t in callers:
+            work.append((g, cb, vn, t.get('span'), depth + 1))
+    seen_sites = set()
+    for f, b, vn, sp in final:
+        if (f.path, b, vn) in seen_sites:
+            continue
+        seen_sites.add((f.path, b, vn))
         inst = '%s:%s' % (short(f.path), vn)
         if f.j.get('derived'):
             ctx.ok('R14.4', inst + ':derived', 'derived %s impl copies an existing error' % short(f.j.get('impl_trait') or ''), span=sp)
